@@ -243,7 +243,7 @@ def _bounds(ctx):
     return dict(max_qubits=10, max_kept=6) if ctx.tier == "quick" else dict(max_qubits=10, max_kept=6)
 
 
-@part("energies", quick=52, thorough=2400)
+@part("energies", quick=44, thorough=2400)
 def energies(ctx):
     """All reference types, all frozen-orbital forms, all molecule families."""
     ctx.search("energies", cases(M.molecules(**_bounds(ctx))), lambda c: check_molecule(ctx, c),
@@ -269,13 +269,13 @@ def uhf_perspin_molecules(draw):
     return m
 
 
-@part("uhf_perspin", quick=24, thorough=800)
+@part("uhf_perspin", quick=20, thorough=800)
 def uhf_perspin(ctx):
     ctx.search("uhf_perspin", cases(uhf_perspin_molecules()), lambda c: check_molecule(ctx, c),
                exclusions={PHANTOM_SIG: padded_register}, shrink_calls=60 if ctx.tier == "quick" else 300)
 
 
-@part("open_shell_frozen", quick=24, thorough=800)
+@part("open_shell_frozen", quick=20, thorough=800)
 def open_shell_frozen(ctx):
     """ROHF with frozen orbitals (n_alpha != n_beta active electrons) and symmetric geometries without displacement."""
     ctx.search("rohf", cases(M.molecules(refs=("rohf",), invalid=False, **_bounds(ctx))
@@ -284,3 +284,128 @@ def open_shell_frozen(ctx):
     ctx.search("symmetric", cases(M.molecules(families=list(M.SYMMETRIC_FAMILIES) + ["H4-ring", "BeH2"], invalid=False,
                                               exact_symmetry=True, **_bounds(ctx))), lambda c: check_molecule(ctx, c), frac=0.4,
                exclusions={PHANTOM_SIG: padded_register}, shrink_calls=60 if ctx.tier == "quick" else 300)
+
+
+# ====================================================================================================== histories
+
+def judge_hamiltonian(mol, mcase, p, e_ci, cfgs, fop, mean_field, what):
+    """Sector minimum (and, for the molecule's own coefficients, the mean-field identity) of one fermionic Hamiltonian."""
+    from tangelo.toolboxes.qubit_mappings.statevector_mapping import get_reference_circuit
+    n, ne, sp = mol.n_active_sos, mol.n_active_electrons, mol.active_spin
+    kind = "uhf" if mcase["uhf"] else "restricted"
+    for mapping, utd in [tuple(c) for c in cfgs]:
+        H, nq, idx, w = sector_minimum(mol, p, mapping, utd, fop, what=what + ": ")
+        if mean_field:
+            k = reference_index(get_reference_circuit(n, ne, mapping, utd, sp), nq)
+            e_ref = M.basis_expectation(H.terms, nq, k)
+            if abs(e_ref - mol.mf_energy) > TOL_E:
+                raise Fail(f"{what}: {mapping}/up_then_down={utd}: <ref|H|ref>={e_ref}, mf_energy={mol.mf_energy}",
+                           sig=f"history-mean-field:{kind}")
+        if abs(w[0] - e_ci) > TOL_X:
+            phantom = mcase["uhf"] and len(p["act_a"]) != len(p["act_b"]) and w[0] < e_ci
+            raise Fail(f"{what}: {mapping}/up_then_down={utd}: sector minimum {w[0]}, CI with the same frozen orbitals {e_ci}",
+                       sig=PHANTOM_SIG if phantom else f"history-sector-min:{kind}")
+
+
+def full_space_reference(mcase, mo):
+    """(nuclear repulsion, h[p,q], g[p,q,r,s] in the openfermion index order g[p,q,r,s] = (ps|qr)) from AO integrals."""
+    pm = M.pyscf_mole(mcase)
+    allmo = list(range(mo.shape[1]))
+    h, g = refchem.spinorb_integrals(pm, mo, mo, allmo, allmo)
+    return pm.energy_nuc(), h["a"], g["aa"].transpose(0, 2, 3, 1)
+
+
+def check_explicit_coefficients(ctx, case):
+    """One restricted molecule object; a drawn sequence of requests with the molecule's own coefficients ("default") and
+    with an explicit rotated mo_coeff= argument ("explicit"); each answer judged for the coefficients it was asked for."""
+    mcase = case["mol"]
+    mol = M.build_molecule(mcase)
+    p = M.partition(mcase, mol)
+    if mol.n_active_sos > 10:
+        raise Skip("harness bound: more than 10 qubits")
+    labels = {"ref=" + ("rohf" if mcase["spin"] else "rhf"), "family=" + mcase["family"], "order=" + "".join(s[0] for s in case["steps"]),
+              "frozen" if mcase["frozen"] not in (None, 0) else "no-frozen"}
+    mo = np.array(M.mo_pair(mol)[0], copy=True)           # taken before any request is made
+    mo_rot = M.rotate_active(mo, p["act_a"], case["rot"])
+    if np.max(np.abs(mo_rot - mo)) < 1e-3:
+        raise Skip("harness: rotation is (numerically) the identity")
+    e_ci, dim = M.ci_energy(mcase, mol, mo=(mo, mo), part=p)
+    for k, step in enumerate(case["steps"]):
+        what = f"request {k + 1} of {case['steps']} ({step} coefficients)"
+        C = mo if step == "default" else mo_rot
+        fop = mol.fermionic_hamiltonian if step == "default" else mol._get_fermionic_hamiltonian(mo_rot.copy())
+        judge_hamiltonian(mol, mcase, p, e_ci, case["cfgs"], fop, step == "default", what)
+        # public integral getters with the same argument
+        got = mol.get_full_space_integrals() if step == "default" else mol.get_full_space_integrals(mo_rot.copy())
+        ref = full_space_reference(mcase, C)
+        for name, a, b in zip(("core constant", "one-body integrals", "two-body integrals"), got, ref):
+            d = float(np.max(np.abs(np.asarray(a) - np.asarray(b))))
+            if d > 1e-7:
+                raise Fail(f"{what}: get_full_space_integrals {name} differ from the AO integrals transformed with the requested "
+                           f"coefficients by {d:.3e}", sig="history-explicit-mo_coeff:integrals")
+        if np.max(np.abs(np.asarray(mol.mo_coeff) - mo)) > 1e-12:
+            raise Fail(f"{what}: the molecule's own mo_coeff changed", sig="history-explicit-mo_coeff:coefficients-changed")
+    return len(p["act_a"]) >= 2 and dim >= 2, labels
+
+
+@st.composite
+def explicit_cases(draw, mols):
+    steps = draw(st.sampled_from([["default", "explicit", "default"], ["explicit", "default", "explicit"], ["explicit", "default"],
+                                  ["default", "explicit"], ["explicit", "explicit", "default"]]))
+    return {"mol": draw(mols), "rot": draw(M.rotations()), "steps": steps,
+            "cfgs": draw(st.lists(st.sampled_from(CONFIGS), min_size=1, max_size=1))}
+
+
+@part("explicit_coefficients", quick=20, thorough=600)
+def explicit_coefficients(ctx):
+    mols = M.molecules(max_qubits=8, max_kept=5, refs=("rhf", "rohf"), invalid=False)
+    ctx.search("explicit", explicit_cases(mols), lambda c: check_explicit_coefficients(ctx, c),
+               shrink_calls=30 if ctx.tier == "quick" else 200)
+
+
+def check_shared_solver(ctx, case):
+    """Several molecules of one family/basis built one after the other with ONE IntegralSolverPySCF instance; each is judged
+    right after it was built.  (Earlier molecules are not re-examined: the solver object owns the MO coefficients, so by
+    construction an older molecule sharing it sees the newest molecule's coefficients.)"""
+    from tangelo.toolboxes.molecular_computation.integral_solver_pyscf import IntegralSolverPySCF
+    solver = IntegralSolverPySCF()
+    labels, nontrivial, built = {f"molecules={len(case['mols'])}", "family=" + case["mols"][0]["family"]}, False, 0
+    for k, mcase in enumerate(case["mols"]):
+        try:
+            mol = M.build_molecule(mcase, solver=solver)
+        except Skip:
+            if k == 0:
+                raise
+            labels.add("later-molecule-rejected")
+            continue
+        if mol.solver is not solver:
+            raise Fail("SecondQuantizedMolecule did not keep the solver instance it was given", sig="history-shared-solver:not-used")
+        p = M.partition(mcase, mol)
+        if mol.n_active_sos > 10:
+            continue
+        e_det = M.determinant_energy(mcase, mol)
+        if abs(e_det - mol.mf_energy) > TOL_E:
+            raise Fail(f"molecule {k + 1}: mf_energy={mol.mf_energy}, occupied determinant {e_det}", sig="mf_energy-vs-determinant")
+        e_ci, dim = M.ci_energy(mcase, mol, part=p)
+        judge_hamiltonian(mol, mcase, p, e_ci, case["cfgs"], mol.fermionic_hamiltonian, True,
+                          f"molecule {k + 1} of {len(case['mols'])} built with one shared IntegralSolverPySCF")
+        built += 1
+        labels.add("ref=" + ("uhf" if mcase["uhf"] else "rohf" if mcase["spin"] else "rhf"))
+        nontrivial |= built >= 2 and dim >= 2
+    return nontrivial, labels
+
+
+@st.composite
+def shared_solver_cases(draw):
+    fam = draw(st.sampled_from(["H2", "H3", "H4-chain", "H4-3d", "H4-ring", "HeH", "LiH"]))
+    basis = draw(st.sampled_from([b for b in M.FAMILIES[fam][2] if b in ("sto-3g", "6-31g")]))
+    one = M.molecules(max_qubits=8, max_kept=5, families=[fam], bases=(basis,), invalid=False)
+    mols = draw(st.lists(one, min_size=2, max_size=3))
+    return {"mols": mols, "cfgs": draw(st.lists(st.sampled_from(CONFIGS), min_size=1, max_size=1))}
+
+
+@part("shared_solver", quick=16, thorough=500)
+def shared_solver(ctx):
+    ctx.search("shared_solver", shared_solver_cases(), lambda c: check_shared_solver(ctx, c),
+               exclusions={PHANTOM_SIG: lambda c: any(padded_register({"mol": m}) for m in c["mols"])},
+               shrink_calls=30 if ctx.tier == "quick" else 200)
